@@ -86,9 +86,11 @@ func blame(v reflect.Value, fails func(v reflect.Value) bool, memo map[string]bo
 			}
 			key := cv.Type().String() + "|" + universe.DescVal(cv, 6)
 			f, ok := memo[key]
-			if !ok {
+			if !ok || memo == nil {
 				f = fails(cv)
-				memo[key] = f
+				if memo != nil {
+					memo[key] = f
+				}
 			}
 			if f {
 				v = cv
